@@ -578,7 +578,7 @@ func levelOf(prop string) string {
 func assumptionsFor(prop string) []string {
 	extra := map[string][]string{
 		"C12": {"Memoize(false): a memo hit replays no failure events, so with Memoize(true) the final message can differ (defect F14, DESIGN 16.3); the global maximum over the run is an induction over the per-function obligations (meta)"},
-		"C07": {"scc.go is under contract for shape and safety (components are fresh non-empty sets of non-empty names; members of a component with several members have outgoing edges; no panic): PROVED. That the components are the classes of mutual reachability and that every simple cycle is enumerated is only checked by the BOUNDED stand-in (all directed graphs with <= 4 vertices); termination of the two recursive closures is not claimed", "front-end guarantees TreeWF()/CodeWF()/NamesWF()/RuleNamesWF() (non-empty rule and reference names) are assumed (C03 is not applicable)"},
+		"C07": {"scc.go is under contract for shape and safety (components are fresh non-empty sets of non-empty names; members of a component with several members have outgoing edges; no panic; every vertex handed in is in some component): PROVED. That the components are disjoint and are the classes of mutual reachability and that every simple cycle is enumerated is only checked by the BOUNDED stand-in (all directed graphs with <= 4 vertices); termination of the two recursive closures is not claimed", "front-end guarantees TreeWF()/CodeWF()/NamesWF()/RuleNamesWF() (non-empty rule and reference names) are assumed (C03 is not applicable)"},
 		"C08": {"'the leader lies on every cycle of its component' is a BOUNDED stand-in (all directed graphs with <= 4 vertices), not a proof"},
 		"C19": {"inst[v]:rebuild-identical obligations are exhaustive over the 48 probe builds (each repeated once in the same process), not a proof over all grammars", "SCC / cycle enumeration / leader determinism: BOUNDED stand-in (all directed graphs with <= 4 vertices, several vertex orders, repeated calls), not a proof", "ComputeNullables' order dependence inside cycles (F11) is not decided"},
 		"C13": {"front-end guarantees TreeWF()/CodeWF()/NamesWF()/RuleNamesWF() are assumed (C03 not applicable); strings.Reader model assumed; termination of the optimizer fixpoint, of NullableVisit (exponential in the depth of the rule-reference DAG: DESIGN 17.5, D5), of the recursive closures of scc.go and of the front-end parser itself not under contract", "inst[v]:builds obligations are exhaustive over the 48 probe grammar/flag combinations of the instantiation harness, not a proof over all grammars"},
